@@ -67,6 +67,9 @@ def regSerial : Op V R → Option Nat
 serials (discharged for the process-wide counter by `serials_distinct`). -/
 def DistinctSerials (ops : List (Op V R)) : Prop := (ops.filterMap regSerial).Nodup
 
+instance (ops : List (Op V R)) : Decidable (DistinctSerials ops) :=
+  inferInstanceAs (Decidable (ops.filterMap regSerial).Nodup)
+
 /-- Everything the Deferred of the `callRemote` at position `i` is ever fired with, in order,
 according to the property: nothing while no event concerns it, then exactly the first one. -/
 def expectedFirings (asStr : V → Option (List Char)) (ops : List (Op V R)) (i : Nat) :
